@@ -8,7 +8,12 @@ from common import BUILD, OUT, build_all
 
 
 def main(path):
-    d = json.load(open(path))
+    raw = open(path, encoding="latin-1").read()
+    if raw.lstrip().startswith("CASE"):
+        # a corpus file: one or more cases in the T2 text format
+        d = {"property": "-", "kind": "corpus", "mismatches": [{"case": "CASE" + c} for c in raw.split("CASE")[1:]]}
+    else:
+        d = json.loads(raw)
     build_all()
     os.makedirs(OUT, exist_ok=True)
     print("property:", d.get("property"), "kind:", d.get("kind"))
